@@ -377,6 +377,42 @@ def run_history(c, case):
                 if not same(eo["solutions"], [obs["solutions"][k]])[0]:
                     vio(f"variant-law:{route}:element-has-another-variants-solution", f"element {k} obtained by {route}")
                     return
+        # selections of several variants at once: slices (open, negative, stepped, reversed), index lists, Ellipsis, negative index
+        nv = m.num_variants
+        selections = [("[:]", slice(None)), ("[1:]", slice(1, None)), ("[-1:]", slice(-1, None)), ("[::-1]", slice(None, None, -1)),
+                      ("[:-1]", slice(None, -1)), ("[::2]", slice(None, None, 2)), (f"[{nv - 1}:{nv}]", slice(nv - 1, nv)), ("[...]", ...),
+                      ("[-1]", -1), ("[list reversed]", list(range(nv))[::-1]), ("[tuple last,first]", (nv - 1, 0))]
+        for label, sel in selections:
+            if isinstance(sel, slice):
+                idx = list(range(nv))[sel]
+            elif sel is ...:
+                idx = list(range(nv))
+            elif isinstance(sel, int):
+                idx = [sel % nv]
+            else:
+                idx = [int(i) for i in sel]
+            if not idx:
+                continue
+            try:
+                sub = m[sel]
+                eo = observe(sub)
+            except Exception as exc:
+                vio(f"variant-law:selection-raised:{type(exc).__name__}", f"m{label} on a {nv}-variant model: {type(exc).__name__}: {str(exc)[:160]}")
+                return
+            kind_ = "slice" if isinstance(sel, slice) else type(sel).__name__
+            c.event("variant-law", f"access:selection:{kind_}", key=("selection", label if not label[1].isdigit() else "[last:]", nv), nontrivial=True)
+            if getattr(sub, "num_variants", None) != len(idx):
+                vio("variant-law:selection:wrong-number-of-variants", f"m{label} of a {nv}-variant model has {getattr(sub, 'num_variants', None)} variants, expected {len(idx)}")
+                return
+            for part in ("params", "stds", "levels", "changes"):
+                want = {n: [v[i] for i in idx] for n, v in obs[part].items()}
+                ok, why = same(eo[part], want)
+                if not ok:
+                    vio("variant-law:selection:elements-are-not-the-selected-variants", f"m{label} of a {nv}-variant model (variants {idx}): {part}: {why}")
+                    return
+            if not same(eo["solutions"], [obs["solutions"][i] for i in idx])[0]:
+                vio("variant-law:selection:elements-have-other-variants-solutions", f"m{label} of a {nv}-variant model (variants {idx})")
+                return
         for k in range(m.num_variants):
             try:
                 single = _fresh(case, [])
